@@ -37,7 +37,7 @@ BOUNDS = {
     "quick": "orders 2..12 x n in {k,k+1,k+2,2k+1,30} x {uniform 60 s, cyclic 60/45/75/50 s} x {lagrange, linear}; "
     "Kepler arcs: circular + e=0.0012 LEO at 60 s and 10 s (uniform and non-uniform); 3 frame/form pairs",
     "thorough": "same product (it is already the full product of DESIGN §4 C09) plus table lengths 3k and 64, a third "
-    "sampling pattern (cyclic 60/30/90/60/45 s) and a second eccentric arc (e=0.01)",
+    "sampling pattern (cyclic 60/50/70/55/65 s) and a second eccentric arc (e=0.01)",
 }
 ASSUMPTIONS = [
     "reference = exact rational Lagrange / linear interpolation on the expected window; rounding tolerance "
@@ -58,7 +58,7 @@ EPS_T = 86400.0 * (2.0 ** -38 + 2.0 ** -54) + 1e-10  # worst-case quantisation o
 PATTERNS = {
     ("uniform", 60): [60],
     ("cyclic4", 60): [60, 45, 75, 50],
-    ("cyclic5", 60): [60, 30, 90, 60, 45],
+    ("cyclic5", 60): [60, 50, 70, 55, 65],
     ("uniform", 10): [10],
     ("cyclic4", 10): [10, Fr(15, 2), Fr(25, 2), Fr(17, 2)],
 }
@@ -209,7 +209,7 @@ def check_A(k, n, sampling, method, t, only=None):
                 bad = [c for c in range(r.size) if r[c] != ys[j, c]]
                 what = "onehot" if any(c < n for c in bad) else "data"
                 t.fail(f"interp/{method}/node-not-exact/{what}", "interpolating at a node returns that point exactly",
-                       case, ys[j].tolist(), r.tolist(),
+                       case, {str(c): ys[j, c] for c in bad[:6]}, {str(c): r[c] for c in bad[:6]},
                        f"columns {bad[:6]} differ by up to {max(abs(r[c]-ys[j,c]) for c in bad):.3e}")
             continue
         if method == "linear":
@@ -228,16 +228,22 @@ def check_A(k, n, sampling, method, t, only=None):
         ls = basis(ts, s, kk, x)
         # basis values
         for j, l in zip(range(s, s + kk), ls):
-            if not t.margin(f"A {method}: |basis - exact| / (4k u |l_j|)", abs(Fr(hot[j]) - l), 4 * kk * U * abs(l), case):
+            # product form: relative error per basis value; chord form y0 + (y1-y0)*th: absolute error u*(4|y1-y0| + max|y|)
+            btol = 4 * kk * U * abs(l) if method == "lagrange" else 5 * U
+            if not t.margin(f"A {method}: |basis - exact| / " + ("(4k u |l_j|)" if method == "lagrange" else "(5 u)"),
+                            abs(Fr(hot[j]) - l), btol, case):
                 t.fail(f"interp/{method}/basis-value", "Lagrange/linear basis value", case, float(l), hot[j], f"node {j}")
         # every data column vs the exact interpolant through the (float) data and vs the exact polynomial
         for c, (ckind, deg, fun) in enumerate(cols):
             col = n + c
             exact_interp = sum(l * ysF[j][col] for j, l in zip(range(s, s + kk), ls))
             S = sum(abs(l * ysF[j][col]) for j, l in zip(range(s, s + kk), ls))
-            tol = 6 * kk * U * S
+            if method == "lagrange":
+                tol, tname = 6 * kk * U * S, "(6k u S)"
+            else:
+                tol, tname = 5 * U * (abs(ysF[s][col]) + abs(ysF[s + 1][col])), "(5 u (|y0|+|y1|))"
             got = Fr(r[col])
-            if not t.margin(f"A {method}: |result - exact interpolant| / (6k u S)", abs(got - exact_interp), tol, case):
+            if not t.margin(f"A {method}: |result - exact interpolant| / {tname}", abs(got - exact_interp), tol, case):
                 t.fail(f"interp/{method}/interpolant", "result is the degree<k interpolant on the window (resp. the "
                        "piecewise-linear one)", case, float(exact_interp), r[col], f"column {ckind} deg {deg}")
             if method == "lagrange":
@@ -403,11 +409,11 @@ def check_B(k, n, sampling, method, t, only=None):
             else:
                 th = (x - ts[i]) / (ts[i + 1] - ts[i])
                 target = nodesF[i][c] * (1 - th) + nodesF[i + 1][c] * th
-                name = "B linear: |result - chord| / (rounding + (sum|l_j p'_j| + |p'|) 0.314 us)"
+                name = "B linear: |result - chord| / (rounding + 3 |slope| 0.314 us)"
                 sig, clause = "ephem/linear/pw-linear", "linear interpolation reproduces the piecewise-linear trajectory"
                 # slope of the chord instead of p'
                 slope = abs((nodesF[i + 1][c] - nodesF[i][c]) / (ts[i + 1] - ts[i]))
-                tol = 7 * 2 * U * S + 3 * slope * Fr(EPS_T) + Fr(1, 10 ** 9)
+                tol = 5 * U * (abs(nodesF[i][c]) + abs(nodesF[i + 1][c])) + 3 * slope * Fr(EPS_T) + Fr(1, 10 ** 9)
             if not t.margin(name, abs(Fr(r[c]) - target), tol, case):
                 t.fail(sig, clause, case, float(target), r[c], f"component {c}, Lebesgue {float(lam):.2f}")
     if only is None or only == ["outside"]:
@@ -526,9 +532,12 @@ def check_C(k, n, sampling, h, arc, t, only=None):
                    "quantisation bound", case, bound, err, f"order {k}, step {h} s")
         if cm_claim:
             t.outcome(("C-cm", h, k))
-            if not t.margin("C kepler arc: |r - truth| / 5 cm (order>=8 @60 s, order>=4 @10 s)", err, 0.05, case):
+            if not t.margin("C kepler arc: |r - truth| / 10 cm ('within centimetres'; order>=8 @60 s, order>=4 @10 s)", err, 0.10, case):
                 t.fail("ephem/kepler-arc/centimetres", "interpolated position within centimetres of the true one, near the "
-                       "ends as well as in the middle", case, 0.05, err, f"order {k}, step {h} s, bracket {i}/{n-1}")
+                       "ends as well as in the middle", case, 0.10, err, f"order {k}, step {h} s, bracket {i}/{n-1}")
+            if k == 8:
+                # informative: the default order against the 1 cm of DESIGN §4 (floor: (L+1)|v| x 0.314 us of MJD quantisation)
+                t.margin("C kepler arc, default order 8: |r - truth| / 1 cm", err, 0.01, case)
         else:
             t.exclude("centimetre claim not applicable: order too low for the step (sampling not 'well below' the "
                       "scale of variation for this order)")
@@ -614,7 +623,7 @@ def run_unit(p, t):
         for n in lengths(k, tier):
             for s in samplings(tier):
                 check_A(k, n, s, p["method"], t)
-        t.sample(dict(part="A", k=k, method=p["method"], tables=[[n, s] for n in lengths(k, tier) for s in samplings(tier)]))
+        t.sample(dict(part="A", k=k, method=p["method"], n=lengths(k, tier), samplings=samplings(tier)))
     elif p["part"] == "B":
         for n in lengths(k, tier):
             for s in samplings(tier):
